@@ -235,6 +235,9 @@ structure NumOps (F : Type) where
   fmtExp : Bool → F → List UInt8
   /-- `str::parse::<f64>().ok()` -/
   parse : List UInt8 → Option F
+  /-- the double nearest to `digits × 10^exp10` (ties to even): what a correctly rounding
+  decimal-to-binary conversion returns; used only to state laws about `parse` -/
+  ofDecimal : Nat → Int → F
   /-- `==` on `f64` -/
   eq : F → F → Bool
 
@@ -326,64 +329,93 @@ def findByte (c : UInt8) (s : List UInt8) : Option Nat :=
 def notationPrefix (s : List UInt8) : Option (Nat × UInt8) :=
   ((s.zipIdx.filter fun (c, _) => c != 95).drop 1).head?.map fun (c, i) => (i, c)
 
+/-- the `(starts_with_zero, notation_prefix)` match guard of `from_str`: position and character
+of the `x`/`X`/`b`/`B` marker when the value starts with `0` and the marker is its second
+non-underscore character -/
+def hexOrBinPrefix (value : List UInt8) : Option (Nat × UInt8) :=
+  match notationPrefix value with
+  | some (position, notationCh) =>
+    if value.head? == some 48 &&
+        (notationCh == 120 || notationCh == 88 || notationCh == 98 || notationCh == 66)
+    then some (position, notationCh) else none
+  | none => none
+
+/-- `value.find(lower).map(|i| (false, i)).or_else(|| value.find(upper).map(|i| (true, i)))` -/
+def findEither (lower upper : UInt8) (value : List UInt8) : Option (Bool × Nat) :=
+  match findByte lower value with
+  | some i => some (false, i)
+  | none => (findByte upper value).map fun i => (true, i)
+
+/-- the hexadecimal arm of `from_str` -/
+def parseHexBranch {F : Type} (value : List UInt8) (position : Nat) (isUppercase : Bool) :
+    Except NumberParsingError (NumLit F) :=
+  match findEither 112 80 value with
+  | some (exponentIsUppercase, index) =>
+    match parseUnsigned 10 4294967295 (value.drop (index + 1)) with
+    | none => .error .invalidHexadecimalExponent
+    | some exponent =>
+      -- `value.get(position + 1..index).unwrap()` panics when `index < position + 1`;
+      -- that needs a `p` before the `x`, impossible since `x` is the 2nd non-`_` char after `0`
+      match parseUnsigned 16 18446744073709551615 ((value.take index).drop (position + 1)) with
+      | none => .error .invalidHexadecimalNumber
+      | some n => .ok (.hex n (some (exponent, exponentIsUppercase)) isUppercase)
+  | none =>
+    match parseUnsigned 16 18446744073709551615 (filterUnderscore (value.drop (position + 1))) with
+    | none => .error .invalidHexadecimalNumber
+    | some n => .ok (.hex n none isUppercase)
+
+/-- the binary arm of `from_str` -/
+def parseBinBranch {F : Type} (value : List UInt8) (position : Nat) (isUppercase : Bool) :
+    Except NumberParsingError (NumLit F) :=
+  match parseUnsigned 2 18446744073709551615 (filterUnderscore (value.drop (position + 1))) with
+  | none => .error .invalidBinaryNumber
+  | some n => .ok (.binary n isUppercase)
+
+/-- the decimal arm (`_ =>`) of `from_str` -/
+def parseDecBranch {F : Type} (ops : NumOps F) (value : List UInt8) :
+    Except NumberParsingError (NumLit F) :=
+  if [46, 95].isPrefixOf value then .error .invalidDecimalNumber
+  else
+    match findEither 101 69 value with
+    | some (exponentIsUppercase, index) =>
+      if containsSub [95, 45] value || containsSub [95, 43] value then
+        .error .invalidDecimalExponent
+      else
+        match parseI64 (filterUnderscore (value.drop (index + 1))) with
+        | none => .error .invalidDecimalExponent
+        | some exponent =>
+          match ops.parse (filterUnderscore (value.take index)) with
+          | none => .error .invalidDecimalNumber
+          | some _ =>
+            match ops.parse (filterUnderscore value) with
+            | none => .error .invalidDecimalNumber
+            | some x => .ok (.decimal x (some (exponent, exponentIsUppercase)))
+    | none =>
+      match ops.parse (filterUnderscore value) with
+      | none => .error .invalidDecimalNumber
+      | some x => .ok (.decimal x none)
+
+/-- `0x…p…`: a hexadecimal float (Lua 5.2 syntax). Luau has none; `from_str` accepts them. -/
+def hexFloatShape (value : List UInt8) : Bool :=
+  (hexOrBinPrefix value).any (fun pc => pc.2 == 120 || pc.2 == 88) &&
+    (value.contains 112 || value.contains 80)
+
+/-- the exponent text of a decimal literal does not fit `i64` (`1e99999999999999999999`):
+`from_str` then answers `InvalidDecimalExponent` although Luau reads the literal (as ±inf or 0) -/
+def expOverflows (value : List UInt8) : Bool :=
+  match findEither 101 69 value with
+  | some (_, index) => (parseI64 (filterUnderscore (value.drop (index + 1)))).isNone
+  | none => false
+
 /-- `FromStr::from_str` on ASCII text (number tokens are ASCII). -/
 def parseNumber {F : Type} (ops : NumOps F) (value : List UInt8) :
     Except NumberParsingError (NumLit F) :=
-  let startsWithZero := value.head? == some 48
-  let hexOrBin := match notationPrefix value with
-    | some (position, notationCh) =>
-      if startsWithZero && (notationCh == 120 || notationCh == 88 || notationCh == 98 || notationCh == 66)
-      then some (position, notationCh) else none
-    | none => none
-  match hexOrBin with
+  match hexOrBinPrefix value with
   | some (position, notationCh) =>
     let isUppercase := notationCh == 88 || notationCh == 66
-    if notationCh == 120 || notationCh == 88 then
-      let found := match findByte 112 value with
-        | some i => some (false, i)
-        | none => (findByte 80 value).map fun i => (true, i)
-      match found with
-      | some (exponentIsUppercase, index) =>
-        match parseUnsigned 10 4294967295 (value.drop (index + 1)) with
-        | none => .error .invalidHexadecimalExponent
-        | some exponent =>
-          -- `value.get(position + 1..index).unwrap()` panics when `index < position + 1`;
-          -- that needs a `p` before the `x`, impossible since `x` is the 2nd non-`_` char after `0`
-          match parseUnsigned 16 18446744073709551615 ((value.take index).drop (position + 1)) with
-          | none => .error .invalidHexadecimalNumber
-          | some n => .ok (.hex n (some (exponent, exponentIsUppercase)) isUppercase)
-      | none =>
-        match parseUnsigned 16 18446744073709551615 (filterUnderscore (value.drop (position + 1))) with
-        | none => .error .invalidHexadecimalNumber
-        | some n => .ok (.hex n none isUppercase)
-    else
-      match parseUnsigned 2 18446744073709551615 (filterUnderscore (value.drop (position + 1))) with
-      | none => .error .invalidBinaryNumber
-      | some n => .ok (.binary n isUppercase)
-  | none =>
-    if [46, 95].isPrefixOf value then .error .invalidDecimalNumber
-    else
-      let found := match findByte 101 value with
-        | some i => some (false, i)
-        | none => (findByte 69 value).map fun i => (true, i)
-      match found with
-      | some (exponentIsUppercase, index) =>
-        if containsSub [95, 45] value || containsSub [95, 43] value then
-          .error .invalidDecimalExponent
-        else
-          match parseI64 (filterUnderscore (value.drop (index + 1))) with
-          | none => .error .invalidDecimalExponent
-          | some exponent =>
-            match ops.parse (filterUnderscore (value.take index)) with
-            | none => .error .invalidDecimalNumber
-            | some _ =>
-              match ops.parse (filterUnderscore value) with
-              | none => .error .invalidDecimalNumber
-              | some x => .ok (.decimal x (some (exponent, exponentIsUppercase)))
-      | none =>
-        match ops.parse (filterUnderscore value) with
-        | none => .error .invalidDecimalNumber
-        | some x => .ok (.decimal x none)
+    if notationCh == 120 || notationCh == 88 then parseHexBranch value position isUppercase
+    else parseBinBranch value position isUppercase
+  | none => parseDecBranch ops value
 
 /-! ## the executable `NumOps` instance: IEEE binary64 as bit patterns
 
@@ -493,7 +525,95 @@ def floatOps : NumOps UInt64 where
   fmt := fmtBits
   fmtExp := fmtExpBits
   parse := parseBits
+  ofDecimal := Ieee.ofDecimal false
   eq a b :=
     !Ieee.isNaNBits a && !Ieee.isNaNBits b && (a == b || (Ieee.isZeroBits a && Ieee.isZeroBits b))
+
+/-! ## nodes/expressions/mod.rs `impl From<f64> for Expression` -/
+
+/-- the little expression trees `Expression::from(f64)` builds -/
+inductive NumExpr (F : Type) where
+  | lit (n : NumLit F)
+  /-- `UnaryExpression::new(UnaryOperator::Minus, e)` -/
+  | neg (e : NumExpr F)
+  /-- `BinaryExpression::new(BinaryOperator::Slash, a, b)` -/
+  | div (a b : NumExpr F)
+
+/-- The `f64` operations `From<f64>` relies on. `log10Floor x` is `x.log10().floor()` (an
+integer-valued float of magnitude < 400, hence an `Int` here; `exponent -= 1.0`, `exponent > 2.0`
+and `exponent as i64` are exact on it), `powf10 e` is `10_f64.powf(e)`. -/
+structure FromOps (F : Type) where
+  isNaN : F → Bool
+  isInf : F → Bool
+  isZero : F → Bool
+  /-- `!is_sign_positive()` -/
+  signNeg : F → Bool
+  posZero : F
+  negZero : F
+  one : F
+  /-- `value < 0.0` -/
+  ltZero : F → Bool
+  abs : F → F
+  /-- `value < 0.1` -/
+  ltTenth : F → Bool
+  /-- `value > 999.0` -/
+  gt999 : F → Bool
+  /-- `(value / 100.0).fract() == 0.0` -/
+  div100FractZero : F → Bool
+  log10Floor : F → Int
+  powf10 : Int → F
+  /-- `power / 10.0` -/
+  div10 : F → F
+  /-- `(value / power).fract() != 0.0` -/
+  divFractNonZero : F → F → Bool
+
+/-- the `while exponent > 2.0 && (value / power).fract() != 0.0` loop (`fuel` bounds the
+iterations; the exponent starts below 400 and decreases by one per iteration) -/
+def shrinkExponent {F : Type} (ops : FromOps F) (value : F) : Nat → Int → F → Int
+  | 0, exponent, _ => exponent
+  | fuel + 1, exponent, power =>
+    if exponent > 2 && ops.divFractNonZero value power then
+      shrinkExponent ops value fuel (exponent - 1) (ops.div10 power)
+    else exponent
+
+/-- the `Subnormal | Normal` arm for a non-negative value -/
+def fromPositive {F : Type} (ops : FromOps F) (value : F) : NumLit F :=
+  if ops.ltTenth value then .decimal value (some (ops.log10Floor value, true))
+  else if ops.gt999 value && ops.div100FractZero value then
+    let exponent := ops.log10Floor value
+    .decimal value (some (shrinkExponent ops value 400 exponent (ops.powf10 exponent), true))
+  else .decimal value none
+
+/-- `impl From<f64> for Expression`. -/
+def fromF64 {F : Type} (ops : FromOps F) (value : F) : NumExpr F :=
+  if ops.isNaN value then
+    .div (.lit (.decimal ops.posZero none)) (.lit (.decimal ops.posZero none))
+  else if ops.isInf value then
+    -- `Expression::from(±1.0)`: `1.0` is a plain decimal, `-1.0` its negation
+    .div (if ops.signNeg value then .neg (.lit (.decimal ops.one none)) else .lit (.decimal ops.one none))
+      (.lit (.decimal ops.posZero none))
+  else if ops.isZero value then
+    .lit (.decimal (if ops.signNeg value then ops.negZero else ops.posZero) none)
+  else if ops.ltZero value then .neg (.lit (fromPositive ops (ops.abs value)))
+  else .lit (fromPositive ops value)
+
+/-- executable instance on bit patterns (libm `log10`, `pow` through Lean's `Float`) -/
+def floatFromOps : FromOps UInt64 where
+  isNaN := Ieee.isNaNBits
+  isInf := Ieee.isInfBits
+  isZero := Ieee.isZeroBits
+  signNeg := Ieee.signBit
+  posZero := 0
+  negZero := 0x8000000000000000
+  one := 0x3ff0000000000000
+  ltZero b := Float.ofBits b < 0.0
+  abs b := UInt64.ofNat (b.toNat % 2 ^ 63)
+  ltTenth b := Float.ofBits b < Float.ofBits 0x3fb999999999999a
+  gt999 b := Float.ofBits b > 999.0
+  div100FractZero b := floatOps.fractIsZero (Float.ofBits b / 100.0).toBits
+  log10Floor b := (Float.ofBits b).log10.floor.toInt64.toInt
+  powf10 e := ((10.0 : Float).pow (Float.ofInt e)).toBits
+  div10 b := (Float.ofBits b / 10.0).toBits
+  divFractNonZero v p := !floatOps.fractIsZero (Float.ofBits v / Float.ofBits p).toBits
 
 end DarkluaModel.C13
